@@ -27,14 +27,29 @@ func histSample(h *hist) map[string]interface{} {
 func TestC03History(t *testing.T) {
 	ev.Rule("C03: rapid state machine (authorize/ban, reports, clock advances incl. the 3200/3600/3999 boundaries and whole weeks, granted rotation and impact steps, restarts needing 0/1/several catch-up rotations, statistics queries for archived/live/future/misaligned/garbage weeks with and without insert_false_negatives and junk parameters); oracle: every rotation must archive exactly the model's first-half values and the impact rates observed just before it, label and server signature over the reference layout, contiguous weeks, first served record of an archived week is remembered and every later plain GET must be byte-identical, allDeviceStats.dat equals the concatenated reference serialisations; non-trivial = history with >=1 rotation that archives a non-zero slot and a later re-query of an archived week after further traffic; distinct by history")
 	rapid.Check(t, func(t *rapid.T) {
-		h := newHist(t, histOpts{prop: "C03", preRegistered: true, preDevices: rapid.IntRange(1, 2).Draw(t, "preDevices"), allowRotation: true, allowImpact: true, allowStatsQuery: true,
+		preDev := rapid.SampledFrom([]int{1, 2, 1, 2, 1, 0}).Draw(t, "preDevices")
+		h := newHist(t, histOpts{prop: "C03", preRegistered: true, preDevices: preDev, allowRotation: true, allowImpact: true, allowStatsQuery: true,
 			weights: map[string]int{"report": 2, "bulk": 3, "stats": 4, "clock": 3, "stepMigrate": 3, "stepImpact": 2, "restart": 1, "authorize": 1, "crossCheck": 1}})
 		defer h.s.cleanup()
 		// Prelude (constructed, so that the interesting shape is common): traffic
 		// in the first week, impact data, a rotation, a first query of the
 		// archived week. The generated machine then continues from there and the
 		// final cross-check re-queries every archived week.
-		if rapid.IntRange(0, 4).Draw(t, "prelude") != 0 {
+		if preDev == 0 {
+			// weeks archived while no device is authorized (records without devices
+			// are the shortest the archive file can hold), then a device, a
+			// restart, and the archived weeks are asked for again
+			s := h.s
+			s.setClock(s.M.Offset + 3201 + uint32(rapid.SampledFrom([]int{0, 500, 798, 2016, 4100, 9000}).Draw(t, "emptyTrigger")))
+			h.actStepMigrate(t)
+			h.actStats(t)
+			h.actAuthorize(t)
+			h.restartAt(s.now)
+			for i := range s.M.Archive {
+				s.checkArchivedServed(i, [32]byte(s.S.VerifSnapshot().ServerPub))
+			}
+			ev.Label("C03:empty-weeks-prelude")
+		} else if rapid.IntRange(0, 4).Draw(t, "prelude") != 0 {
 			s := h.s
 			s.setClock(s.M.Offset + uint32(rapid.IntRange(100, 1500).Draw(t, "preludeClock")))
 			for i, n := 0, rapid.IntRange(1, 3).Draw(t, "preludeBulks"); i < n; i++ {
